@@ -194,7 +194,9 @@ class Bed6(Bed3):
             score, st = 0, "."
         else:
             score = rng.randint(0, 1000) if rng.random() < 0.8 else uint(rng, prof)
-            st = spell_int(score, rng, nc)
+            if style.get("score_small"):
+                score = rng.randint(0, 9)       # a column in which every value (and every '.') is one character wide
+            st = spell_int(score, rng, nc) if not style.get("score_small") else str(score)
         strand = rng.choice("+-.") if style.get("dot_strand") else rng.choice("+-")
         r["values"].update(name=name, score=score, strand=strand)
         r["texts"] += [name, st, strand]
@@ -342,6 +344,17 @@ VCF_INFO_DEFS = [
 ]
 
 
+# the same IDs declared with other Types / Numbers: what a key means is decided by each file's own header
+VCF_INFO_DEFS_ALT = [
+    ("DP", "1", "Float"), ("AF", "A", "Float"), ("DB", "0", "Flag"), ("AA", "1", "Integer"), ("NS", ".", "Integer"), ("MQ", "1", "String"), ("AC", "1", "Integer"),
+    ("DBID", "1", "String"), ("H2", "0", "Flag"), ("H2X", "1", "Float"),
+]
+
+
+def info_defs(style):
+    return VCF_INFO_DEFS_ALT if (style or {}).get("info_defs_alt") else VCF_INFO_DEFS
+
+
 class Vcf(Format):
     name = "vcf"
     suffix = ".vcf"
@@ -353,7 +366,7 @@ class Vcf(Format):
     def header(self, rng, style):
         lines = ["##fileformat=VCFv4.2"]
         if self.with_info_header:
-            for k, num, typ in VCF_INFO_DEFS:
+            for k, num, typ in info_defs(style):
                 lines.append('##INFO=<ID=%s,Number=%s,Type=%s,Description="%s field">' % (k, num, typ, k))
         lines.append('##FILTER=<ID=q10,Description="Quality below 10">')
         cols = "#CHROM\tPOS\tID\tREF\tALT\tQUAL\tFILTER\tINFO"
@@ -363,12 +376,13 @@ class Vcf(Format):
         lines.append(cols)
         return "\n".join(lines) + "\n"
 
-    def gen_info(self, rng, prof, n_alt):
+    def gen_info(self, rng, prof, n_alt, style=None):
         info = {}
         parts = []
-        keys = [d for d in VCF_INFO_DEFS if rng.random() < 0.6]
+        defs = info_defs(style)
+        keys = [d for d in defs if rng.random() < 0.6]
         if not keys:
-            keys = [VCF_INFO_DEFS[0]]
+            keys = [defs[0]]
         for k, num, typ in keys:
             if typ == "Flag":
                 info[k] = True
@@ -398,7 +412,7 @@ class Vcf(Format):
         ref = seq(rng, prof, DNA, [1, 1, 2, 4])
         alts = [seq(rng, prof, DNA, [1, 1, 3]) for _ in range(n_alt)]
         pos1 = uint(rng, prof, 1)
-        info, info_t = self.gen_info(rng, prof, n_alt)
+        info, info_t = self.gen_info(rng, prof, n_alt, style)
         v = {"chromosome": "chr" + ident(rng, prof, string.digits, string.digits), "position": pos1 - 1, "id": rng.choice([".", "rs%d" % i + ident(rng, prof, string.digits, string.digits)]),
              "ref_seq": ref, "alt_seq": ",".join(alts), "quality": rng.choice([".", "29", "3.5", "100"]), "filter": rng.choice(["PASS", ".", "q10"]),
              "info": info, "info_text": info_t}
